@@ -262,10 +262,98 @@ def _harness(nusers, nattempts):
     return fn
 
 
+# ---------------------------------------------------------------- the SASL exchange on the wire
+WIRE_USERS = [('u', 'p', False), ('a', 'q', True)]
+
+
+def plain_spec(raw):
+    """what RFC 4616 + the property say about the decoded PLAIN response `raw` (bytes): the identity the connection
+    may act as, or None"""
+    if raw.count(b'\0') != 2:
+        return None
+    zid, cid, pw = raw.split(b'\0')
+    if not cid:
+        return None
+    try:
+        zid, cid, pw = zid.decode('utf-8'), cid.decode('utf-8'), pw.decode('utf-8')
+    except UnicodeDecodeError:
+        return None
+    zid = zid or cid
+    for name, secret, admin in WIRE_USERS:
+        if name == cid and secret == pw and (zid == cid or admin) and any(n == zid for n, _, _ in WIRE_USERS):
+            return zid
+    return None
+
+
+def sasl_wire(g, sim, conn_mod, b64line, tls=False):
+    """AUTHENTICATE PLAIN + one response line on the real connection loop; returns (authenticated?, output)"""
+    from contextlib import AsyncExitStack
+
+    class Cfg(g['Config']):
+        pass
+    args = sim.FakeArgs()
+    cfg = Cfg.from_args(args, hash_context=_Hash(), cpu_subsystem=g['Subsystem'].for_asyncio(), invalid_user_sleep=0.0)
+    login = g['Login'](cfg)
+    for name, pw, admin in WIRE_USERS:
+        login.users_dict[name] = g['UserMetadata'](cfg, name, password=pw, roles=frozenset(['admin']) if admin else frozenset())
+    feed = [b'a AUTHENTICATE PLAIN\r\n', b64line, b'x LIST "" ""\r\n', b'y NOOP\r\n']
+    tr, state, exc = conn_mod.run_imap(g, login, cfg, feed, local=True)
+    out = bytes(x if isinstance(x, int) else 63 for x in tr.output())
+    if exc is not None:
+        return None, 'connection raised %r' % (exc,), None
+    lines = out.split(b'\r\n')
+    probe = [ln for ln in lines if ln.startswith(b'x ')]
+    if not probe:
+        return None, 'the probe command got no tagged answer: %r' % out[-120:], None
+    owner = state._session.owner if state is not None and state._session is not None else None
+    return probe[0].startswith(b'x OK'), None, owner
+
+
+def _h_sasl_wire(n, fixed=None):
+    def fn(eng):
+        from pysymex import fresh_bytes, SymBytes, Outcome
+        from pysymex.codecs7 import b64encode_items
+        from checks import _conn
+        raw = fresh_bytes(eng, 'r', n)
+        for pos, val in (fixed or {}).items():
+            eng.add(raw.items[pos].t == val)
+        line = SymBytes(list(b64encode_items(raw.items)) + [13, 10], 'bytes')
+        g = dict(_g)
+        from pymap.imap import IMAPConnection
+        g['IMAPConnection'] = IMAPConnection
+        authed, err, owner = sasl_wire(g, _g['_sim'], _conn, line)
+        wit = lambda m: {'raw': bytes(raw.eval(m)).hex()}  # noqa: E731
+        if err:
+            return Outcome(False, witness=wit, info=err)
+        # the specification, on the concrete shape of this path: fork until the bytes that matter are decided
+        conc = []
+        for c in raw.items:
+            # NUL positions and equality with the few characters of the stored credentials decide the outcome
+            v = None
+            for k in (0, ord('u'), ord('p'), ord('a'), ord('q')):
+                if bool(c == k):
+                    v = k
+                    break
+            if v is None:
+                v = ord('z') if bool(c < 0x80) else 0xff     # any other ASCII byte / any non-ASCII byte
+            conc.append(v)
+        want = plain_spec(bytes(conc))
+        ok = (authed == (want is not None)) and (owner is None or (want is not None and bool(owner == want)))
+        return Outcome(ok, witness=wit, info='authenticated=%s owner=%s, the specification says %r' % (authed, owner, want))
+    return fn
+
+
 def harnesses(tier):
     from pysymex.runner import Harness
     cfgs = [(1, 1), (2, 1), (2, 2)] if tier == 'quick' else [(1, 1), (2, 1), (2, 2), (2, 3)]
-    return [Harness('attempts[users=%d,n=%d]' % (u, n), _harness(u, n),
+    wire = [Harness('sasl_plain_on_the_wire[raw=%d]' % n, _h_sasl_wire(n),
+                    {'decoded_response_bytes': n, 'users': WIRE_USERS, 'probe': 'LIST after the exchange'},
+                    replay='saslwire', task_budget=60) for n in range(0, (4 if tier == 'quick' else 5) + 1)]
+    # authzid of one character: <z> NUL <c> NUL <p>
+    wire.append(Harness('sasl_plain_on_the_wire[raw=5,byte1=NUL]', _h_sasl_wire(5, {1: 0}),
+                        {'decoded_response_bytes': 5, 'shape': 'one-character authzid', 'users': WIRE_USERS}, replay='saslwire',
+                        task_budget=60))
+    return wire + [Harness('attempts[users=%d,n=%d]' % (u, n), _harness(u, n),
                     {'stored_users': u, 'attempts': n, 'strings': 'symbolic (1 character each, equality only)'},
                     replay='scenario', task_budget=60) for u, n in cfgs]
 
@@ -281,6 +369,19 @@ def replay(harness, w):
     from pysasl.creds.plain import PlainCredentials
     g.update(locals())
     bad = []
+    if harness == 'saslwire':
+        import base64
+        from checks import _conn
+        from pymap.imap import IMAPConnection
+        g['IMAPConnection'] = IMAPConnection
+        raw = bytes.fromhex(w['raw'])
+        authed, err, owner = sasl_wire(g, _sim, _conn, base64.b64encode(raw) + b'\r\n')
+        want = plain_spec(raw)
+        if err:
+            bad.append(err)
+        elif authed != (want is not None) or (owner is not None and str(owner) != want):
+            bad.append('response %r: authenticated=%s owner=%s, the specification says %r' % (raw, authed, owner, want))
+        return {'violates': bool(bad), 'detail': bad[:3], 'category': 'sasl wire'}
 
     def check(c, msg=''):
         if not c:
